@@ -35,3 +35,45 @@ package render
 //@   ensures[C05] @mapped result == nil ==> cache.visible(cac(pg.cache), key) && in(key, pg.cacheMap)
 //@     && pg.cacheMap[key] == cac(pg.cache).Cache[cache.scope(cac(pg.cache), key)][key]
 //@   ensures[C05] @refused result != nil ==> in(key, pg.cacheMap) == old(in(key, pg.cacheMap)) && pg.cacheMap[key] == old(pg.cacheMap[key])
+
+// ---- C01: every rendered page passes the final size check ----
+// The template engine and the menu text are arbitrary strings as far as the
+// size bound is concerned: whatever they produce is checked afterwards.
+// RenderTemplate, Menu.Render and prepare are therefore given frame-only
+// contracts here (results unconstrained).
+//@ modset menuState(m) = m.menu, m.menu[*], m.canNext, m.canPrevious, m.pageCount
+//@ modset sizerState(szr) = szr.crsrs, szr.crsrs[*], szr.sink, szr.memberSizes[*], szr.totalMemberSize
+
+//@ func (*Page).RenderTemplate
+//@   assumed
+//@   requires pg != nil
+//@   modifies nothing
+
+//@ func (*Menu).Render
+//@   assumed
+//@   requires m != nil
+//@   modifies menuState(m)
+//@   ensures sameBacking(m.menu, old(m.menu)) || fresh(m.menu) || m.menu == nil
+
+//@ func (*Page).prepare
+//@   assumed
+//@   requires pg != nil
+//@   modifies pg.extra, pg.menu.menu, pg.menu.menu[*], pg.menu.canNext, pg.menu.canPrevious, pg.menu.pageCount, pg.menu.keep
+//@   modifies sizerState(pg.sizer)
+//@   ensures pg.menu != nil ==> sameBacking(pg.menu.menu, old(pg.menu.menu)) || fresh(pg.menu.menu) || pg.menu.menu == nil
+
+// (under the VM the page always has a menu; the menu-less use of Page is outside these contracts)
+//@ func (*Page).render
+//@   serves C01
+//@   requires pg != nil && pg.menu != nil
+//@   modifies menuState(pg.menu)
+//@   ensures @fits result1 == nil && pg.sizer != nil && pg.sizer.outputSize > 0 ==> len(result0) <= int(pg.sizer.outputSize)
+//@   ensures @err result1 != nil ==> result0 == ""
+
+//@ func (*Page).Render
+//@   serves C01
+//@   requires pg != nil && pg.menu != nil
+//@   modifies pg.extra, pg.menu.menu, pg.menu.menu[*], pg.menu.canNext, pg.menu.canPrevious, pg.menu.pageCount, pg.menu.keep
+//@   modifies sizerState(pg.sizer)
+//@   ensures @fits result1 == nil && pg.sizer != nil && pg.sizer.outputSize > 0 ==> len(result0) <= int(pg.sizer.outputSize)
+//@   ensures @err result1 != nil ==> result0 == ""
